@@ -135,6 +135,9 @@ type Scenario struct {
 	// PathAddrs: the clients' addresses are not UDP addresses but path names (a unixgram packet listener): they do not
 	// look like ip:port, and they are different clients all the same
 	PathAddrs bool `json:"path_addrs,omitempty"`
+	// ExtraListen: the server has further listen addresses after the UDP one ("udp": a second packet listener that gets
+	// no traffic, "tcp": a stream listener, "both")
+	ExtraListen string `json:"extra_listen,omitempty"`
 }
 
 // pathAddr is the address of a unixgram client.
@@ -171,6 +174,7 @@ func genScenario(seed int64, i int) *Scenario {
 	if i%16 == 5 {
 		s.Pileup, s.Handler, s.Clients, s.EndAfter, s.DelayUs, s.BufSize, s.Match = true, []string{"rec", "closeself"}[r.Intn(2)], 14, 1, 30000, 9000, false
 	}
+	s.ExtraListen = []string{"", "", "", "udp", "tcp", "both"}[fw.Rand(seed, "c09listen", i).Intn(6)]
 	if r.Intn(3) == 0 {
 		s.Sizes[r.Intn(len(s.Sizes))] = boundarySizes[r.Intn(len(boundarySizes))]
 		if r.Intn(2) == 0 {
@@ -279,7 +283,15 @@ func clientAddrZ(k int, zones bool) *net.UDPAddr {
 func runScenario(c *fw.Ctx, s *Scenario) {
 	name := vnet.UniqueName("c09pc")
 	pc := vnet.NewNamedPacketConn(name)
-	cfg := fmt.Sprintf(`{"servers":{"s":{"listen":["verifudp/%s:1"],"routes":%s,"matching_timeout":"2s"}}}`, name, routesFor(s))
+	listen := []string{"verifudp/" + name + ":1"}
+	if s.ExtraListen == "udp" || s.ExtraListen == "both" {
+		_ = vnet.NewNamedPacketConn(name + "b")
+		listen = append(listen, "verifudp/"+name+"b:1")
+	}
+	if s.ExtraListen == "tcp" || s.ExtraListen == "both" {
+		listen = append(listen, "veriftcp/"+name+"t:1")
+	}
+	cfg := fmt.Sprintf(`{"servers":{"s":{"listen":%s,"routes":%s,"matching_timeout":"2s"}}}`, drive.J(listen), routesFor(s))
 	app, err := drive.StartAppConfig(cfg, "")
 	if err != nil {
 		c.Violation("C09 config rejected", err.Error(), s)
@@ -617,7 +629,11 @@ func runReal(c *fw.Ctx) {
 			continue
 		}
 		r := fw.Rand(c.Seed, "c09real", i)
-		kind := []string{"echo", "nomatch", "rec1"}[i%3]
+		kind := []string{"echo", "nomatch", "rec1", "echo", "proxydown", "rec1", "nomatch"}[i%7]
+		if kind == "proxydown" {
+			realProxyDown(c, i)
+			continue
+		}
 		routes := `[{"handle":[{"handler":"echo"}]}]`
 		switch kind {
 		case "nomatch":
@@ -724,6 +740,113 @@ func runReal(c *fw.Ctx) {
 			return map[string]any{"storm": i, "kind": kind, "clients": clients, "datagrams_each": per, "echoed": echoed}
 		})
 	}
+}
+
+// realProxyDown: a real UDP listener whose proxy handler dials an upstream that is not there yet (the kernel answers
+// the relayed datagram with "port unreachable", the upstream side of that association ends with an error). Whatever
+// the handler of that association does with its own virtual connection, the listener keeps serving: once the upstream
+// is up, a client with a fresh address gets its datagrams relayed and the replies come back to it alone.
+func realProxyDown(c *fw.Ctx, i int) {
+	r := fw.Rand(c.Seed, "c09proxydown", i)
+	// a port below the range from which the kernel picks ports for bind(0) and connect (32768..60999 here): nothing
+	// else in this sandbox gets it while it is closed
+	upAddr := ""
+	for try := 0; try < 8 && upAddr == ""; try++ {
+		a := fmt.Sprintf("127.0.0.1:%d", 20000+(os.Getpid()%1000)*12+(i+try)%12)
+		if hold, err := net.ListenPacket("udp", a); err == nil {
+			_ = hold.Close()
+			upAddr = a
+		}
+	}
+	if upAddr == "" {
+		c.Inconclusive("cannot find a free UDP port for the absent upstream")
+		return
+	}
+	name := vnet.UniqueName("c09real")
+	cfg := fmt.Sprintf(`{"servers":{"s":{"listen":["verifrealudp/%s:1"],"routes":[{"handle":[{"handler":"proxy","upstreams":[{"dial":["udp/%s"]}]}]}],"matching_timeout":"1s"}}}`, name, upAddr)
+	app, err := drive.StartAppConfig(cfg, "")
+	if err != nil {
+		c.Violation("C09 config rejected", err.Error(), cfg)
+		return
+	}
+	defer app.Stop()
+	addr, _ := vnet.RealUDPAddr(name)
+	c.Journal("real proxydown %d", i)
+	early := 1 + r.Intn(3)
+	var earlyConns []net.Conn
+	for k := 0; k < early; k++ {
+		conn, err := net.Dial("udp", addr)
+		if err != nil {
+			continue
+		}
+		earlyConns = append(earlyConns, conn)
+		for sq := 1; sq <= 1+r.Intn(4); sq++ {
+			_, _ = conn.Write(makeDatagram(k, sq, 64))
+			time.Sleep(time.Duration(200+r.Intn(2000)) * time.Microsecond)
+		}
+	}
+	time.Sleep(time.Duration(20+r.Intn(60)) * time.Millisecond)
+	up, err := net.ListenPacket("udp", upAddr)
+	if err != nil {
+		for _, ec := range earlyConns {
+			ec.Close()
+		}
+		c.Inconclusive("cannot bind the reserved UDP port again")
+		return
+	}
+	go func() {
+		buf := make([]byte, 65536)
+		for {
+			n, a, err := up.ReadFrom(buf)
+			if err != nil {
+				return
+			}
+			_, _ = up.WriteTo(buf[:n], a)
+		}
+	}()
+	defer up.Close()
+	late := 2 + r.Intn(3)
+	served := 0
+	bad := ""
+	for k := 0; k < late; k++ {
+		id := 100 + k
+		conn, err := net.Dial("udp", addr)
+		if err != nil {
+			continue
+		}
+		ok := false
+		buf := make([]byte, 4096)
+		for try := 1; try <= 10 && !ok && bad == ""; try++ {
+			_, _ = conn.Write(makeDatagram(id, try, 48))
+			_ = conn.SetReadDeadline(time.Now().Add(500 * time.Millisecond))
+			n, err := conn.Read(buf)
+			if err != nil {
+				continue
+			}
+			ds, b := parseStream(buf[:n])
+			if b != "" || len(ds) != 1 || ds[0].client != id {
+				bad = fmt.Sprintf("client %d received a datagram that is not a reply to its own: %s", id, b)
+			} else {
+				ok = true
+			}
+		}
+		conn.Close()
+		if ok {
+			served++
+		}
+	}
+	for _, ec := range earlyConns {
+		ec.Close()
+	}
+	w := map[string]any{"storm": i, "kind": "proxydown", "early_clients": early, "late_clients": late, "late_served": served}
+	if bad != "" {
+		c.Violation("C09 real-socket cross-talk [proxydown]", bad, w)
+	}
+	if served < late {
+		c.Violation("C09 loop-not-serving [real proxy, upstream was down]", fmt.Sprintf("after associations whose upstream refused their datagrams, %d of %d clients with fresh addresses got no reply through the proxy within 5 s although the upstream was up by then", late-served, late), w)
+	}
+	c.Obs("real_proxydown_late_clients_served", int64(served))
+	c.Case(fw.Hash("real", "proxydown", early, late, i), true, func() any { return w })
 }
 
 // runIdle lets many associations expire by the 30 s idle timeout in parallel and checks that afterwards each
